@@ -7,12 +7,13 @@
     specification [AV.Spec.VecSpec] gives, for EVERY element size (0 included), capacity,
     backend (fixed, resizable, relocating) and token.  Out-of-range indices panic and
     leave the state unchanged; a full fixed-capacity backend panics and leaves it
-    unchanged.  By induction these one-step statements cover every history: the
-    hypotheses of each step ([Rep] + well-formed arguments) are the conclusions of the
-    previous one.  How each value is supplied / consumed (wrapper, raw pointer, handle of
-    another vector, lazy clone; drop, downcast, move) is composed from these steps by
-    [Interp.exec] exactly as the harness composes the API calls; that composition is
-    covered by the correspondence check. *)
+    unchanged.  The induction over whole histories, through [Interp.exec]
+    exactly as the harness composes the API calls, is mechanised in the block "histories"
+    below ([C01_history_refines]: machine = list specification [WorldSpec] for every script of
+    the fragment, any number of vectors, values moved between vectors).  Lazy clones,
+    drained elements and value mutation as sources / sinks inside a history are outside
+    that fragment: their one-step theorems are in C02/C06/C08/C09/C13 and their composition
+    is covered by the correspondence check. *)
 From AV.Model Require Import Base Bytes Vec Ops.
 From AV.Spec Require Import VecSpec.
 From AV.Proofs Require Import MemLemmas Rep VecProofs TempProofs.
@@ -141,6 +142,67 @@ Example C01_example :
   end.
 Proof. vm_compute. reflexivity. Qed.
 
+(* ---- histories ---- *)
+From AV.Model Require Import Interp.
+From AV.Spec Require Import WorldSpec.
+From AV.Proofs Require Import NoFault WorldProofs.
+(** WHOLE HISTORIES.  [WorldSpec.spec_run] gives a script its meaning directly on lists (std::vec::Vec semantics: a world of vectors, fresh identities, which values the destructor runs on); [Interp.run_step] is the byte-level machine the harness's trace is compared with.  For EVERY list of operations of the fragment (new, push, insert - every fresh-value source kind, typed and erased path -, pop / remove / swap_remove with the handle dropped, downcast, forgotten or moved by push or insert into ANOTHER vector, clear, get, at, vector drop; any number of vectors; every element size incl. 0, every backend kind incl. fixed capacity and the relocating backend with prebuilt capacity), every step's outcome, panic kind, returned values and user-code events are the specification's, the machine state represents the specification's lists afterwards (typed snapshot = list), and no step faults.  Hypothesis [Admissible]: at each growth the allocator can serve the request (decidable: [Admissibleb]); non-vacuity: [ex_admissible], [ex_spec_defined] on a 25-step history through every case. *)
+(** one script step *)
+Theorem C01_step_refines :
+  forall (c : cfg) (w : world) (st : astate) (o : op) (r : sres),
+         cfg_wf c ->
+         WRep c w st ->
+         spec_step c st (unext (wuw w)) o = Some r -> admissible c w o -> obs_match c (run_step c None o w) r.
+Proof. exact step_refines. Qed.
+
+(** induction over the history *)
+Theorem C01_history_refines :
+  forall (c : cfg) (ops : list op) (w : world) (st : astate) (rs : list sres),
+         cfg_wf c ->
+         WRep c w st ->
+         spec_run c st (unext (wuw w)) ops = Some rs ->
+         Admissible c w ops -> Forall2 (obs_match c) (run_hist c ops w) rs.
+Proof. exact history_refines. Qed.
+
+Theorem C01_history_snapshots :
+  forall (c : cfg) (ops : list op) (w : world) (st : astate) (rs : list sres),
+         cfg_wf c ->
+         WRep c w st ->
+         spec_run c st (unext (wuw w)) ops = Some rs ->
+         Admissible c w ops ->
+         Forall2
+           (fun (sr : step_result) (r : sres) =>
+            sr_out sr = s_out r /\
+            sr_pkind sr = s_pk r /\
+            sr_ret sr = s_ret r /\
+            (forall (n : nat) (a : avec),
+             get_a n (s_st r) = Some a ->
+             exists v : vec,
+               get_vec n (sr_world sr) = Some v /\
+               snapshot c v = Some (a_xs a) /\ vlen v = N.of_nat (length (a_xs a)))) 
+           (run_hist c ops w) rs.
+Proof. exact history_snapshots. Qed.
+
+Theorem C01_history_from_empty_world :
+  forall (c : cfg) (ops : list op) (rs : list sres),
+         cfg_wf c ->
+         spec_run c [] 1 ops = Some rs ->
+         Admissible c init_world ops -> Forall2 (obs_match c) (run_hist c ops init_world) rs.
+Proof. exact history_from_init. Qed.
+
+Theorem C01_admissibility_decidable :
+  forall (c : cfg) (ops : list op) (w : world), Admissibleb c w ops = true -> Admissible c w ops.
+Proof. exact Admissibleb_sound. Qed.
+
+Theorem C01_example_admissible :
+  Admissible ex_cfg init_world ex_ops.
+Proof. exact ex_admissible. Qed.
+
+Theorem C01_example_spec_defined :
+  exists rs : list sres, spec_run ex_cfg [] 1 ex_ops = Some rs /\ length rs = length ex_ops.
+Proof. exact ex_spec_defined. Qed.
+
+(* ---- end histories ---- *)
 Print Assumptions C01_snapshot.
 Print Assumptions C01_new.
 Print Assumptions C01_push.
@@ -158,3 +220,10 @@ Print Assumptions C01_clear.
 Print Assumptions C01_get.
 Print Assumptions C01_read.
 Print Assumptions C01_pinned_copy_bytes_refuted.
+Print Assumptions C01_step_refines.
+Print Assumptions C01_history_refines.
+Print Assumptions C01_history_snapshots.
+Print Assumptions C01_history_from_empty_world.
+Print Assumptions C01_admissibility_decidable.
+Print Assumptions C01_example_admissible.
+Print Assumptions C01_example_spec_defined.
